@@ -9,6 +9,8 @@
 #include "exec.h"
 #include "world_int.h"
 #include "sched.h"
+#include "wire.h"
+#include "adapter.h"
 
 namespace sim
 {
@@ -50,6 +52,148 @@ static std::vector<Plan> splitThreads(const Plan& plan, int n)
         std::stable_sort(s.items.begin(), s.items.end(), [](const Item& a, const Item& b) { return (a.tag == "cfg") > (b.tag == "cfg"); });
     }
     return subs;
+}
+
+// ------------------------------------------------------------------------------------------------ instances
+// C19, second engine (asan variant): "... produce exactly the results each would produce alone". The same 2-4 workloads,
+// each with its own Encoder / Decoder / Status objects, are executed on ONE thread, interleaved operation by operation in a
+// seeded order - the coarsest of all schedules - and, at one seeded point, NEIGHBOUR instances (a fresh decoder, encoder,
+// tracker) do a large amount of work in between (cfg nbflood: up to a few hundred thousand frames). Every workload's
+// digest must equal the digest of the same workload run alone. What this engine sees and the scheduled one cannot:
+// influence between instances that travels through correctly SYNCHRONISED process-wide state (atomics, mutex-protected
+// or thread_local caches, counters and clocks) - no data race, so no thr.conflict - and that needs far more work by the
+// neighbour than an instrumented thread workload can do. What it cannot see: data races (the scheduled engine's business).
+static void neighbourFlood(uint64_t frames, uint64_t seed, RunResult& out)
+{
+    lib::Dec dec;
+    lib::Enc enc;
+    lib::Stat stat;
+    enc.setDev(0x4E42);
+    enc.setStream(0x7E);
+    Bytes f;
+    for (uint64_t i = 0; i < frames; ++i)
+    {
+        const uint64_t r = mix64(seed + i * 0x9E3779B97F4A7C15ULL);
+        const size_t len = (r >> 32) % 24;
+        f.assign(wire::CMP_HDR + wire::MSG_HDR + len, static_cast<uint8_t>(r >> 40));
+        wire::CmpHdr h;
+        h.version = 1;
+        h.dev = static_cast<uint16_t>((r >> 8) % 97);
+        h.stream = static_cast<uint8_t>((r >> 16) % 5);
+        h.mtype = 1;
+        h.ctr = static_cast<uint16_t>(i);
+        wire::writeCmpHdr(f.data(), h);
+        wire::MsgHdr m;
+        m.ts = i;
+        m.id32 = 7;
+        const unsigned kind = r % 16;
+        m.flags = kind == 0 ? wire::SEG_FIRST : kind == 1 ? wire::SEG_MID : kind == 2 ? wire::SEG_LAST : wire::SEG_NONE;
+        m.ptype = 0x20;
+        m.plen = static_cast<uint16_t>(len);
+        wire::writeMsgHdr(f.data() + wire::CMP_HDR, m);
+        auto pk = dec.decode(f.data(), f.size());
+        if ((i & 1023) == 0)
+        {
+            for (auto& p : pk)
+                stat.update(p);
+            lib::MsgSpec s;
+            s.version = 1;
+            s.mtype = 1;
+            s.ptype = 0x20;
+            s.ts = i;
+            s.id32 = 3;
+            s.flags = 0;
+            s.payload = f.data();
+            s.len = 8 + len;
+            (void) enc.encode({s}, 0, (i & 2048) ? 30 : 1500, static_cast<int>((i >> 12) & 3));
+        }
+    }
+    out.probes["neighbour-instance-frames"] += frames;
+    out.apiCalls += frames;
+}
+
+RunResult execInstances(const Plan& plan)
+{
+    RunResult out;
+    const int n = static_cast<int>(std::min<int64_t>(std::max<int64_t>(1, plan.cfgGet("nthreads", 2)), 4));
+    std::vector<Plan> subs = splitThreads(plan, n);
+    std::vector<std::unique_ptr<World>> w(static_cast<size_t>(n));
+    std::vector<size_t> nOps(static_cast<size_t>(n), 0), pos(static_cast<size_t>(n), 0);
+    size_t totalOps = 0;
+    simClockEnable(true);
+    simClockSet(0);
+    for (int t = 0; t < n; ++t)
+    {
+        w[static_cast<size_t>(t)] = std::make_unique<World>(subs[static_cast<size_t>(t)]);
+        for (auto& it : subs[static_cast<size_t>(t)].items)
+            nOps[static_cast<size_t>(t)] += it.tag == "op";
+        totalOps += nOps[static_cast<size_t>(t)];
+    }
+    Rng r(static_cast<uint64_t>(plan.cfgGet("schedseed", 1)), "instances");
+    const uint64_t flood = static_cast<uint64_t>(std::max<int64_t>(0, plan.cfgGet("nbflood", 0)));
+    const size_t floodAfter = flood ? static_cast<size_t>(r.below(totalOps + 1)) : static_cast<size_t>(-1);
+    size_t done = 0;
+    bool flooded = false;
+    uint64_t order = 0xC19;
+    for (;;)
+    {
+        if (flood && !flooded && done >= floodAfter)
+        {
+            neighbourFlood(flood, r.next(), out);
+            flooded = true;
+        }
+        std::vector<int> cand;
+        for (int t = 0; t < n; ++t)
+            if (pos[static_cast<size_t>(t)] < nOps[static_cast<size_t>(t)])
+                cand.push_back(t);
+        if (cand.empty())
+            break;
+        const int t = cand[r.below(cand.size())];
+        const size_t ti = static_cast<size_t>(t);
+        const size_t chunk = 1 + r.below(3);
+        const size_t to = std::min(nOps[ti], pos[ti] + chunk);
+        w[ti]->runOps(pos[ti], to);
+        done += to - pos[ti];
+        pos[ti] = to;
+        if (r.chance(1, 2))
+            w[ti]->deliverDue(r.below(4), pos[ti]);  // stop in the middle of what is in flight (a reassembly, say)
+        order = hashU64((static_cast<uint64_t>(t) << 8) | chunk, order);
+    }
+    if (flood && !flooded)
+        neighbourFlood(flood, r.next(), out);
+    std::vector<RunResult> res(static_cast<size_t>(n));
+    for (int t = 0; t < n; ++t)
+    {
+        w[static_cast<size_t>(t)]->finishRun();
+        res[static_cast<size_t>(t)] = std::move(w[static_cast<size_t>(t)]->res);
+    }
+    w.clear();
+    simClockEnable(false);
+    out.interleaveHash = order;
+    out.stateHashes.push_back(order);
+    out.probes["instances-interleaved-on-one-thread"] += 1;
+    out.eventHash = 0xC19;
+    for (int t = 0; t < n; ++t)
+    {
+        RunResult solo = execPlan(subs[static_cast<size_t>(t)]);
+        const RunResult& rr = res[static_cast<size_t>(t)];
+        out.eventHash = hashU64(rr.eventHash, out.eventHash);
+        if (rr.eventHash != solo.eventHash)
+        {
+            Violation v;
+            v.prop = plan.prop;
+            v.rule = "inst.diverged";
+            v.detail = "workload " + std::to_string(t) + " (" + subs[static_cast<size_t>(t)].prop + " family), interleaved with other instances on one thread" +
+                       (flood ? " (a neighbour decoded " + std::to_string(flood) + " frames in between)" : "") + ", produced results different from the same workload run alone";
+            out.viol.push_back(v);
+        }
+        for (auto& kv : rr.probes)
+            out.probes[kv.first] += kv.second;
+        out.apiCalls += rr.apiCalls + solo.apiCalls;
+        out.deliveries += rr.deliveries + solo.deliveries;
+        out.simTimeUs += rr.simTimeUs;
+    }
+    return out;
 }
 
 RunResult execThreads(const Plan& plan)
